@@ -36,9 +36,11 @@ func body(kinds string, strat group.ExecutionStrategy) func() {
 	return func() {
 		parent, cancelParent := context.WithCancel(context.Background())
 		defer cancelParent()
-		tid := make([]int, n)   // thread id that ran member i
-		rets := make([]*ret, n) // what member i returned
-		calls := make([]int, n) // how often member i was called
+		sawAt := make([][]int, n) // cancellation-aware member i observed its context done after these hand-overs
+		rescued := false          // the harness itself cancelled the caller's context
+		tid := make([]int, n)     // thread id that ran member i
+		rets := make([]*ret, n)   // what member i returned
+		calls := make([]int, n)   // how often member i was called
 		var callOrder []int
 		members := make([]group.Member, n)
 		for i := range members {
@@ -57,10 +59,16 @@ func body(kinds string, strat group.ExecutionStrategy) func() {
 					r = ret{nil, e}
 				case 's':
 					<-ctx.Done()
+					if !rescued {
+						sawAt[i] = append([]int{-1}, verifrt.Sends()...)
+					}
 					r = ret{nil, ctx.Err()}
 				case 'w':
 					select {
 					case <-ctx.Done():
+						if !rescued {
+							sawAt[i] = append([]int{-1}, verifrt.Sends()...)
+						}
 						r = ret{nil, ctx.Err()}
 					default:
 						r = ret{m, nil}
@@ -88,6 +96,7 @@ func body(kinds string, strat group.ExecutionStrategy) func() {
 			for i := range rets {
 				retsAtStuck[i] = rets[i] != nil
 			}
+			rescued = true
 			cancelParent()
 			verifrt.WaitIdle()
 		}
@@ -267,6 +276,46 @@ func body(kinds string, strat group.ExecutionStrategy) func() {
 			}
 			if decided {
 				verifrt.Logf("FAIL not-cancelled %s ## the outcome was decided after responses %v but the remaining members' contexts were not cancelled (they only ended when the caller's context was)", name, before)
+			}
+		}
+		// ... and not before: a member that saw its context cancelled (without the harness having
+		// cancelled the caller's context) must have been cancelled by a decided outcome
+		if !isOne {
+			decidedBy := func(before []int) bool {
+				switch strat {
+				case group.ExecutionStrategyFast:
+					for _, i := range before {
+						if rets[i] != nil && rets[i].err == nil {
+							return true
+						}
+					}
+					return false
+				case group.ExecutionStrategyRace:
+					return len(before) > 0
+				}
+				allowed := 0
+				if strat == group.ExecutionStrategyMost {
+					allowed = n / 2
+				} else if strat == group.ExecutionStrategyAny {
+					allowed = n - 1
+				}
+				errs := 0
+				for _, i := range before {
+					if rets[i] != nil && rets[i].err != nil {
+						errs++
+					}
+				}
+				return errs > allowed
+			}
+			for i := range sawAt {
+				if sawAt[i] == nil {
+					continue
+				}
+				before := order(sawAt[i][1:])
+				if !decidedBy(before) {
+					verifrt.Logf("FAIL cancelled-before-decided %s ## member %d saw its context cancelled after responses %v only: the outcome was not decided yet and the caller's context was not cancelled", name, i, before)
+					break
+				}
 			}
 		}
 		es := "nil"
